@@ -10,6 +10,7 @@ W="$ROOT/.work/setup.$$"
 mkdir -p "$W"
 go test -c -tags verif -o "$W/props.test" ./props
 go test -c -race -tags verif -o "$W/props.race.test" ./props || echo "setup: race build failed (C12 will report exit 2)" >&2
+GOARCH=386 go test -c -tags verif -o "$W/props.386.test" ./props || echo "setup: 386 build failed (the int32 jobs will report exit 2)" >&2
 go build -tags verif -o "$W/update-wordlist" github.com/islishude/bip39/update-wordlist
 rm -rf "$W"
 echo "setup ok"
